@@ -264,6 +264,31 @@ def h_keyrange(ctx, width, form='int'):
         ctx.require(And(got[0][0] == k, got[0][1] == v), 'single key: stored under its own key')
 
 
+def h_addr_key_range(ctx, hash_len=32, base=None):
+    """an Address used as a key names a 267-bit key only if its workchain fits int8 and its account id is 32 bytes: otherwise it
+    is rejected (any error), never stored under the key of another address.  The workchain is symbolic over 11 bits."""
+    from pytoniq_core.boc import Address
+    # the workchain: any int8 (base None), or a value outside int8: base + 7 symbolic bits (128..255, 256..383, -256..-129 ...)
+    wc = ctx.sint('wc', 8) if base is None else base + ctx.uint('wcl', 7)
+    acc = ctx.bytes_('acc', hash_len)
+    v = ctx.uint('v', 8)
+    other_v = ctx.uint('w', 8)
+    hm = HashMap(267).with_uint_values(8)
+    fits = And(wc >= -128, wc <= 127) if hash_len == 32 else False
+    try:
+        a = Address((wc, acc))
+        hm.set(a, v)
+        raised = False
+    except Exception:
+        raised = True
+    ctx.require(Iff(raised, Not(fits)) if hash_len == 32 else raised, 'address key: rejected exactly when it names no 267-bit key')
+    if not raised and hash_len == 32:
+        want = (0b100 << 264) + ((wc & 0xff) << 256) + uint_of_bits(bits_of_bytes(acc))
+        res = HashMap.parse(hm.serialize().begin_parse(), 267, None, lambda s: s.load_uint(8))
+        got = list(res.items())
+        ctx.require(len(got) == 1 and And(got[0][0] == want, got[0][1] == v), 'address key: stored under addr_std$10 none wc:int8 account:bits256')
+
+
 def h_keyforms(ctx, form):
     """the documented key forms with symbolic contents"""
     v = ctx.uint('v', 16)
@@ -294,6 +319,7 @@ def h_keyforms(ctx, form):
 
 h_keyforms.symkeys = True
 h_keyrange.symkeys = True
+h_addr_key_range.symkeys = True
 
 
 # ------------------------------------------------------------------------------- instances
@@ -305,6 +331,14 @@ def instances(tier, seed):
     # process-wide state shows up everywhere once present: the scenarios that pin it down run first
     yield 'h_two_maps', dict(width=4, keys1=[1, 7, 12], keys2=[2, 3, 8])
     yield 'h_two_maps', dict(width=8, keys1=[255], keys2=[0, 255])
+    yield 'h_addr_key_range', dict()
+    for base in (128, 256, -256, -384, 1 << 20):
+        yield 'h_addr_key_range', dict(base=base)
+    yield 'h_addr_key_range', dict(hash_len=31)
+    # wide keys at the extremes: all zeros with all ones, neighbours across the longest carry
+    for w in (48, 49, 53, 64, 80, 256, 267, 1023):
+        for ks in ([0, (1 << w) - 1], [(1 << (w - 1)) - 1, 1 << (w - 1)], [0, 1, (1 << w) - 1, (1 << w) - 2]):
+            yield 'h_roundtrip', dict(width=w, keys=ks, vk='u8', route='parse')
     for keys, steps in (([5, 200], [['int', 77]]), ([5, 200], [['set', 77]]), ([5, 200], [['int', 5]]), ([1], [['int', 0], ['int', 255], ['del', 1]]),
                         ([3, 4, 9], [['del', 4], ['int', 4]]), ([3, 4], [['del', 3], ['del', 4], ['int', 8]]), ([7], [['vals'], ['int', 6], ['set', 7]])):
         yield 'h_incremental', dict(width=8, keys=keys, steps=steps)
